@@ -513,6 +513,10 @@ func (v *FnVC) havocLoc(x Expr, env *Env, st *State) {
 			case "chans":
 				v.havocKey(st, v.regKey("CH:len", "(Array Int Int)"))
 				return
+			case "chanstate": // chanstate(): how full every channel is AND which channels are closed
+				v.havocKey(st, v.regKey("CH:len", "(Array Int Int)"))
+				v.havocKey(st, v.regKey("CH:closed", "(Array Int Bool)"))
+				return
 			case "allElems": // allElems("T"): contents of every slice of element type T
 				t, _ := v.W.resolveType(e.Args[0].(*EStr).V, env.pkg)
 				if t == nil {
@@ -770,6 +774,8 @@ func (v *FnVC) modKeysOf(x Expr, contract *FuncContract, fn *ssa.Function) []str
 				}
 			case "chans":
 				return []string{v.regKey("CH:len", "(Array Int Int)")}
+			case "chanstate":
+				return []string{v.regKey("CH:len", "(Array Int Int)"), v.regKey("CH:closed", "(Array Int Bool)")}
 			case "allElems":
 				if tt, _ := v.W.resolveType(e.Args[0].(*EStr).V, pkg); tt != nil {
 					return []string{v.elemKey(tt)}
@@ -1305,7 +1311,7 @@ func (v *FnVC) frameTargets(x Expr, env *Env, all map[string]bool, refs map[stri
 					refs[k] = append(refs[k], a.S)
 				}
 				return
-			case "chans":
+			case "chans", "chanstate":
 				all[v.regKey("CH:len", "(Array Int Int)")] = true
 				all[v.regKey("CH:closed", "(Array Int Bool)")] = true
 				return
